@@ -557,6 +557,8 @@ Parts 1-2 (`FuncInput.step`, `bcastM`, `InputNode.step`, `ContinueNode.step`). -
 inductive Kind where
   | func (lw : Bool)
   | mfunc
+  /-- `async_node`: a multifunction node whose body gets the gateway; `resv`: the body calls `gateway.reserve_wait()` -/
+  | async (resv : Bool)
   | input
   | cont (lw : Bool)
   | sink
@@ -588,6 +590,8 @@ structure SNode where
   runs : Nat := 0
   /-- proxy: the task armed to run at the next `register_predecessor` -/
   hook : Option Task := none
+  /-- async: `gateway.reserve_wait()` calls not yet matched by `release_wait()` -/
+  gres : Nat := 0
 deriving Repr, Inhabited
 
 structure Sim where
@@ -609,7 +613,7 @@ def setNode (s : Sim) (n : Nat) (nd : SNode) : Sim := { s with nodes := s.nodes.
 def log (s : Sim) (e : String) : Sim := { s with ev := e :: s.ev }
 def spawn (s : Sim) (t : Task) : Sim := { s with pool := s.pool ++ [t], vertex := s.vertex + 1 }
 
-def isFunc (k : Kind) : Bool := match k with | .func _ => true | .mfunc => true | _ => false
+def isFunc (k : Kind) : Bool := match k with | .func _ => true | .mfunc => true | .async _ => true | _ => false
 
 /-- `sender::try_get` of node `p` (only input nodes override it). -/
 def tryGet (s : Sim) (p : Nat) : Sim × Option Nat :=
@@ -680,7 +684,7 @@ def tryPutTask : Nat → Sim → Nat → Nat → Sim × Bool
         | (f1, .run _) => ((s.setNode r { nd with fi := f1 }).spawn (.body r m), true)
         | (f1, .queued) => (s.setNode r { nd with fi := f1 }, true)
         | (_, _) => (s, false)
-    | .func false | .mfunc =>
+    | .func false | .mfunc | .async _ =>
       match nd.fi.step (.tryput m) with
       | (f1, .run _) => ((s.setNode r { nd with fi := f1 }).spawn (.body r m), true)
       | (f1, .queued) => (s.setNode r { nd with fi := f1 }, true)
@@ -747,6 +751,11 @@ def execTask : Nat → Sim → Task → Bool → Sim
           let s1 := s.log s!"B{n}:{m}"
           let t1 := bcastM (offer fuel n m) s1 (s1.node n).succs
           let s2 := t1.1.setNode n { t1.1.node n with succs := t1.2.2 }
+          (s2.bodyDone n m).finalize t
+        | .async resv =>
+          -- the body only talks to the gateway: nothing is put to the output port by the task itself
+          let s1 := s.log s!"A{n}:{m}"
+          let s2 := if resv then { (s1.setNode n { nd with gres := nd.gres + 1 }).log s!"W{n}" with vertex := s1.vertex + 1 } else s1
           (s2.bodyDone n m).finalize t
         | _ => (inlineBody fuel s n m).finalize t
     | .fwd n =>
@@ -825,7 +834,7 @@ def cput (s : Sim) (n : Nat) : Sim × Bool :=
 def resetNode (s : Sim) (n : Nat) : Sim :=
   let nd := s.node n
   match nd.kind with
-  | .func _ | .mfunc =>
+  | .func _ | .mfunc | .async _ =>
     -- my_predecessors.reset(): every pull edge goes back to push (the graph is inactive: nothing is spawned)
     let s1 := nd.fi.preds.foldl (fun st p =>
       let pn := st.node p
@@ -866,6 +875,9 @@ def showNode (i : Nat) (nd : SNode) : String :=
   | .func _ | .mfunc =>
     let q := match nd.fi.queue with | none => "x" | some l => showIds l
     s!"{i}:c{nd.fi.conc} q{q} p{showIds nd.fi.preds} f{b01 nd.fi.fwdBusy} s{showIds nd.succs}"
+  | .async _ =>
+    let q := match nd.fi.queue with | none => "x" | some l => showIds l
+    s!"{i}:c{nd.fi.conc} q{q} p{showIds nd.fi.preds} f{b01 nd.fi.fwdBusy} s{showIds nd.succs} g{nd.gres}"
   | .input =>
     s!"{i}:a{b01 nd.inp.active} r{b01 nd.inp.reserved} h{b01 nd.inp.hasItem} i{if nd.inp.hasItem then nd.inp.item else 0} s{showIds nd.inp.succs}"
   | .cont _ => s!"{i}:pc{nd.cn.predCount} cc{nd.cn.curCount} s{showIds nd.succs}"
@@ -907,6 +919,12 @@ def stepLine (s0 : Sim) (ws : List String) : Sim × String :=
     | some i, some c =>
       if s.going || i != s.nodes.length || !(pol = "q" || pol = "r") || c > 1000 then bad s
       else ({ s with nodes := s.nodes ++ [{ kind := .mfunc, fi := FuncInput.new c (pol = "q") }] }, "ok")
+    | _, _ => bad s
+  | ["node", id, "async", maxc, pol, rv] =>
+    match id.toNat?, maxc.toNat? with
+    | some i, some c =>
+      if s.going || i != s.nodes.length || !(pol = "q" || pol = "r") || !(rv = "0" || rv = "1") || c > 1000 then bad s
+      else ({ s with nodes := s.nodes ++ [{ kind := .async (rv = "1"), fi := FuncInput.new c (pol = "q") }] }, "ok")
     | _, _ => bad s
   | ["node", id, "input", first, stop] =>
     match id.toNat?, first.toNat?, stop.toNat? with
@@ -976,6 +994,26 @@ def stepLine (s0 : Sim) (ws : List String) : Sim × String :=
         let t := tryPutTask FUEL s r v
         fin t.1 (b01 t.2)
     | _, _ => bad s
+  | ["gput", n, m] =>
+    -- `gateway.try_put(m)` of async node `n` from a foreign thread: `gather_successful_try_puts` over the successors of
+    -- output port 0, then the gathered tasks are enqueued
+    match n.toNat?, m.toNat? with
+    | some r, some v =>
+      let isAsync := match (s.node r).kind with | .async _ => true | _ => false
+      if !s.going || !s.validNode r || v > 1000000 || !isAsync then bad s
+      else
+        let t := s.bcastFrom r v
+        fin t.1 (b01 t.2)
+    | _, _ => bad s
+  | ["grel", n] =>
+    -- `gateway.release_wait()`
+    match n.toNat? with
+    | some r =>
+      let nd := s.node r
+      let isAsync := match nd.kind with | .async _ => true | _ => false
+      if !s.going || !s.validNode r || !isAsync || nd.gres = 0 then bad s
+      else fin { (s.setNode r { nd with gres := nd.gres - 1 }) with vertex := s.vertex - 1 } "ok"
+    | none => bad s
   | ["cput", n] =>
     match n.toNat? with
     | some r =>
@@ -1018,7 +1056,7 @@ def stepLine (s0 : Sim) (ws : List String) : Sim × String :=
     match parseTask t with
     | some tk =>
       let okKind := match tk with
-        | .body n _ => isFunc (s.node n).kind && (s.node n).kind != .func true
+        | .body n _ => (match (s.node n).kind with | .func false => true | .mfunc => true | _ => false)
         | .cbody _ => true
         | _ => false
       if !s.going || !s.pool.contains tk || !okKind || (s.cancelled && !s.begun.contains tk) then bad s
